@@ -5,7 +5,7 @@ import sys
 
 from . import core
 
-POOL_SHA = '807892cde8b2a7cb2a5b405252f7ef62ffd6e03847acf5767cd27c619fcce7e8'
+POOL_SHA = 'd5d3f49d0c2234d022b5de1c4db2308bffda38e00919edbc6e26f2c200c534fe'
 
 
 def main(argv):
